@@ -4,8 +4,9 @@
 using namespace hz;
 
 // Second shape (one case in six): the real server with a scripted, conforming sender whose upstream history contains total losses
-// of seven consecutive packets (so that a 3-bit sequence number comes round again) and crafted packet contents; every packet the
-// server writes to its tun device must be one the sender completed.
+// of seven consecutive packets (so that a 3-bit sequence number comes round again), packets given up after their first fragment, and
+// crafted packet contents (zlib's Adler-32 is no obstacle to a sender who chooses the contents); every packet the server writes to
+// its tun device must be one the sender completed or gave up.
 static CaseResult wrap_case(Tape &t)
 {
 	CaseResult r;
@@ -20,11 +21,13 @@ static CaseResult wrap_case(Tape &t)
 	std::vector<mon::TunEv> wr = R.tm.writes_of(R.s->srv->idx);
 	for (auto &w : wr) {
 		bool found = false;
-		for (auto &pp : R.peers) { for (auto &pkt : pp->up_completed) if (pkt == w.data) found = true; if (pp->up_active && pp->up_cur_pkt == w.data) found = true; }
-		if (!found) { r.fail("C01:fabricated-after-wrap", scn::fmt("the server wrote a %zu-byte packet to its tun device that the scripted sender never sent: %s", w.data.size(), hexs(w.data, 48).c_str()) + "\n" + r.render); break; }
+		for (auto &pp : R.peers) { for (auto &pkt : pp->up_completed) if (pkt == w.data) found = true; for (auto &pkt : pp->up_abandoned) if (pkt == w.data) found = true; if (pp->up_active && pp->up_cur_pkt == w.data) found = true; }
+		bool merged = false;
+		if (!found) for (auto &pp : R.peers) for (auto &pkt : pp->up_abandoned) if (pkt.size() == w.data.size() && pkt.size() > 32 && !memcmp(pkt.data(), w.data.data(), 30)) merged = true;
+		if (!found) { r.fail(merged ? "C01:merged-after-wrap" : "C01:fabricated-after-wrap", scn::fmt("the server wrote a %zu-byte packet to its tun device that the scripted sender never sent: %s", w.data.size(), hexs(w.data, 48).c_str()) + "\n" + r.render); break; }
 	}
-	r.nontrivial = R.n_wrap >= 1;
-	r.cls("scripted-sender"); if (R.n_wrap) r.cls("sequence-number-wrap-with-crafted-packet");
+	r.nontrivial = R.n_wrap + R.n_merge >= 1;
+	r.cls("scripted-sender"); if (R.n_wrap) r.cls("sequence-number-wrap-with-crafted-packet"); if (R.n_merge) r.cls("sequence-number-wrap-after-abandoned-first-fragment");
 	return r;
 }
 
